@@ -490,7 +490,7 @@ int main(int argc, char** argv)
 {
 	Ctx c = parseArgs(argc, argv);
 	Rng rng(c.seed * 0x1000 + 12);
-	unsigned rh = c.thorough ? 12 : 3;
+	unsigned rh = c.thorough ? 24 : 6;
 	bool have32 = g_arena.ok();
 	c.stats.count("cfg.arena32_available", have32 ? 1 : 0);
 	{
@@ -514,7 +514,7 @@ int main(int argc, char** argv)
 	}
 	{
 		Suite s(c, "bkt", "model hashmeta");
-		unsigned r = c.thorough ? 1500 : 150;
+		unsigned r = c.thorough ? 4000 : 400;
 		historiesP4<P4Drv<Item8, MM64, 4>>(c, rng, s, "LimP4<4>/hc4", r);
 		historiesP4<P4Drv<Item8, MM64, 3>>(c, rng, s, "LimP4<3>/hc4", r);
 		historiesP4<P4Drv<Item16, MM64, 2>>(c, rng, s, "LimP4<2>/hc4/item16", r);
